@@ -3,7 +3,7 @@
 EXTENDS Integers, Sequences, TLC, Json, IOUtils
 VARIABLES hist, done
 GenDepth == IF "GEN_DEPTH" \in DOMAIN IOEnv THEN atoi(IOEnv.GEN_DEPTH) ELSE 24
-Ops == <<"create", "get", "get", "list", "listlabel", "listid", "update", "modify", "mdcopy", "mutate", "mutate", "mutate", "mutate", "watchget">>
+Ops == <<"create", "get", "get", "list", "listlabel", "listid", "strip", "update", "modify", "mdcopy", "mutate", "mutate", "mutate", "mutate", "watchget">>
 Fields == <<"labelSet", "labelDelete", "labelDo", "annotationSet", "annotationDelete", "finAdd", "finRemove", "finSet",
             "phase", "version", "owner", "spec">>
 Init == hist = <<>> /\ done = FALSE
